@@ -231,6 +231,10 @@ def gen_misc(tier):
     for nitems, note, color, comment in itertools.product((0, 1, 2, 3), ('', 'gn', "g'n\nl2"), (None, '#abc', '#AbCdEf'), (None, 'gc', 'g1\ng2')):
         items = [['public', 'a'], ['s', 'c'], ['public', 'b']][:nitems]
         out.append(('group', A.group('g', items, note=note, color=color, comment=comment)))
+    for nitems, color in ((0, None), (2, '#abc')):
+        g = A.group('g', [['public', 'a'], ['s', 'c']][:nitems], note='', color=color)
+        g['force_note'] = True          # `Note: ''` written out: an empty note is still a note object with an owner
+        out.append(('group', g))
     for text in ('x', '', "it's", 'two\nlines', '  indented\n    more\n  back'):
         out.append(('note', A.sticky('n', text)))
     for nitems, note, comment in itertools.product((0, 1, 2), ('', 'pn', "p'n\nl2"), (None, 'pc', 'p1\np2')):
